@@ -131,6 +131,9 @@ def session(cfg, inject_at=None, kind=None):
     from urwid.display import raw
 
     script_name, loopname, hook, popups, paste, sigs = cfg
+    variant = None
+    if "+" in script_name:
+        script_name, variant = script_name.split("+", 1)
     m, s = os.openpty()
     inp = os.fdopen(s, "rb", buffering=0)
     out = Out()
@@ -216,6 +219,8 @@ def session(cfg, inject_at=None, kind=None):
     def filt(keys, raw_):
         site("filter")
         calls.append(("keys", tuple(str(k) for k in keys)))
+        if variant == "genfilter":
+            return (k for k in keys)  # a filter written with a generator expression / yield
         return keys
 
     def unh(k):
@@ -236,7 +241,14 @@ def session(cfg, inject_at=None, kind=None):
         evl, closer = make_loop(loopname)
     else:
         evl, closer = None, None  # a screen without event-loop support only works with MainLoop's own select loop
-    ml = urwid.MainLoop(w, screen=scr, input_filter=filt, unhandled_input=unh, event_loop=evl, pop_ups=popups)
+    if variant == "subclass":
+        class MyLoop(urwid.MainLoop):  # the documented alternative to passing unhandled_input=
+            def unhandled_input(self, data):
+                return unh(data)
+
+        ml = MyLoop(w, screen=scr, input_filter=filt, event_loop=evl, pop_ups=popups)
+    else:
+        ml = urwid.MainLoop(w, screen=scr, input_filter=filt, unhandled_input=unh, event_loop=evl, pop_ups=popups)
     evl = ml.event_loop
     script = list(SCRIPTS[script_name])
     pr, pw = os.pipe()
@@ -405,6 +417,7 @@ def site_kind(name):
 
 def judge_clean(ctx, cfg, r):
     script_name, loopname, hook, popups, paste, sigs = cfg
+    script_name = script_name.split("+", 1)[0]
     case = {"cfg": cfg, "inject_at": None, "kind": None}
     feat = f"{loopname}/{'hook' if hook else 'nohook'}"
 
@@ -568,6 +581,9 @@ def configs(tier):
     out.append(("restart", "select", False, False, False, "default"))
     out.append(("burst-swap", "select", False, True, False, "default"))
     out.append(("popup", "select", False, True, False, "default"))
+    for v in ("genfilter", "subclass"):
+        for ln in (("select", "asyncio") if tier == "quick" else LOOPS):
+            out.append(("mouse-alarm+" + v, ln, True, False, False, "default"))
     out.append(("burst", "select", False, True, True, "default"))
     out.append(("mouse-alarm", "select", False, False, True, "custom"))
     return out
